@@ -37,7 +37,7 @@ func zzFormat(which int) format.Format {
 	case 3:
 		f := &format.VP8{PayloadTyp: zzPT()}
 		if zzBool("hasMaxFR") {
-			v := zzIntIn("maxfr", 0, 999)
+			v := zzIntIn("maxfr", 0, 99)
 			f.MaxFR = &v
 		}
 		return f
@@ -51,14 +51,14 @@ func zzFormat(which int) format.Format {
 		br := []int{16, 24, 32, 40}[zzConcretize(zzIntIn("bitrate", 0, 3))]
 		return &format.G726{PayloadTyp: zzPT(), BitRate: br, BigEndian: zzBool("be")}
 	case 8:
-		f := &format.Speex{PayloadTyp: zzPT(), SampleRate: zzIntIn("rate", 1, 99999)}
+		f := &format.Speex{PayloadTyp: zzPT(), SampleRate: zzRate()}
 		if zzBool("hasVBR") {
 			v := zzBool("vbr")
 			f.VBR = &v
 		}
 		return f
 	case 9:
-		return &format.AC3{PayloadTyp: zzPT(), SampleRate: zzIntIn("rate", 1, 99999), ChannelCount: zzIntIn("ch", 1, 9)}
+		return &format.AC3{PayloadTyp: zzPT(), SampleRate: zzRate(), ChannelCount: zzConcretize(zzIntIn("ch", 1, 6))}
 	case 10:
 		f := &format.VP9{PayloadTyp: zzPT()}
 		f.MaxFR = zzOptInt("maxfr")
@@ -85,15 +85,28 @@ func zzFormat(which int) format.Format {
 		mono := zzConcretize(zzIntIn("mono", 0, 1))
 		return &format.LPCM{PayloadTyp: 10 + uint8(mono), BitDepth: 16, SampleRate: 44100, ChannelCount: 2 - mono}
 	default:
-		return &format.Vorbis{PayloadTyp: zzPT(), SampleRate: zzIntIn("rate", 1, 99999), ChannelCount: zzIntIn("ch", 1, 9), Configuration: zzBytes("conf", 1, 3)}
+		return &format.Vorbis{PayloadTyp: zzPT(), SampleRate: zzRate(), ChannelCount: zzConcretize(zzIntIn("ch", 1, 2)), Configuration: zzBytes("conf", 1, 3)}
+	case 19:
+		// a format the library has no type for: rtpmap with or without the optional
+		// encoding-parameters field
+		rm := []string{"X-CODEC/8000", "X-CODEC/16000/1", "AMR-WB/16000/2", "X-CODEC/90000"}[zzConcretize(zzIntIn("rtpmap", 0, 3))]
+		g := &format.Generic{PayloadTyp: zzPT(), RTPMa: rm}
+		zzAssert(g.Init() == nil, "generic format initialises")
+		return g
 	}
+}
+
+// sample rates are drawn from the values in use (decimal conversion of a fully
+// symbolic 5-digit number is beyond the solvers)
+func zzRate() int {
+	return []int{8000, 16000, 32000, 44100, 48000}[zzConcretize(zzIntIn("rate", 0, 4))]
 }
 
 func zzOptInt(name string) *int {
 	if !zzBool("has-" + name) {
 		return nil
 	}
-	v := zzIntIn(name, 0, 999)
+	v := zzIntIn(name, 0, 9)
 	return &v
 }
 
@@ -166,6 +179,9 @@ func zzSameFormat(a, b format.Format) bool {
 	case *format.H264:
 		y, ok := b.(*format.H264)
 		return ok && zzAnd(x.PayloadTyp == y.PayloadTyp, x.PacketizationMode == y.PacketizationMode) && y.SPS == nil && y.PPS == nil
+	case *format.Generic:
+		y, ok := b.(*format.Generic)
+		return ok && zzAnd(x.PayloadTyp == y.PayloadTyp, x.ClockRat == y.ClockRat) && x.RTPMa == y.RTPMa && len(x.FMT) == len(y.FMT)
 	case *format.Vorbis:
 		y, ok := b.(*format.Vorbis)
 		return ok && zzAnd(x.PayloadTyp == y.PayloadTyp, zzAnd(x.SampleRate == y.SampleRate, x.ChannelCount == y.ChannelCount)) && zzBytesEq(x.Configuration, y.Configuration)
@@ -179,11 +195,21 @@ func zzSameFormat(a, b format.Format) bool {
 // payload type, clock rate / channel parameters and optional fields.
 func ZzC05MediaRT() {
 	which := zzParam("FMT", 0)
-	m := Media{Type: MediaTypeAudio, ID: zzAlnum("mid", 0, 2), IsBackChannel: zzBool("back"), Control: "trackID=" + zzAlnum("ctl", 1, 2)}
-	if zzBool("secure") {
-		m.Profile = headers.TransportProfileSAVP
+	m := Media{Type: MediaTypeAudio, Control: "trackID=0"}
+	if zzParam("MEDIAFIX", 0) == 0 {
+		// media-level attributes symbolic (runs that focus on format parameters fix them)
+		m = Media{Type: MediaTypeAudio, ID: zzAlnum("mid", 0, 2), IsBackChannel: zzBool("back"), Control: "trackID=" + zzAlnum("ctl", 1, 2)}
+		if zzBool("secure") {
+			m.Profile = headers.TransportProfileSAVP
+		}
 	}
 	m.Formats = []format.Format{zzFormat(which)}
+	if which2 := zzParam("FMT2", -1); which2 >= 0 {
+		// a second format in the same media (static after dynamic payload types included)
+		f2 := zzFormat(which2)
+		zzAssume(f2.PayloadType() != m.Formats[0].PayloadType())
+		m.Formats = append(m.Formats, f2)
+	}
 	md, err := m.Marshal()
 	zzAssert(err == nil, "media marshals")
 	var m2 Media
@@ -195,9 +221,11 @@ func ZzC05MediaRT() {
 		zzAssert(m2.IsBackChannel == m.IsBackChannel, "back-channel flag preserved")
 		zzAssert(m2.Profile == m.Profile, "profile preserved")
 		zzAssert(m2.Control == m.Control, "control preserved")
-		zzAssert(len(m2.Formats) == 1, "one format")
-		if len(m2.Formats) == 1 {
-			zzAssert(zzSameFormat(m.Formats[0], m2.Formats[0]), "format preserved (type, payload type, parameters)")
+		zzAssert(len(m2.Formats) == len(m.Formats), "same number of formats")
+		if len(m2.Formats) == len(m.Formats) {
+			for i := range m.Formats {
+				zzAssert(zzSameFormat(m.Formats[i], m2.Formats[i]), "format preserved (type, payload type, parameters)")
+			}
 		}
 	}
 	zzCover("done", true)
